@@ -48,7 +48,14 @@ class VQueue:
         self.buffers = {}  # producer name -> list of bytes still in its feeder buffer
 
     def put(self, obj):
-        data = pickle.dumps(obj)
+        # multiprocessing.Queue.put() only appends to a buffer; the object is pickled (standard
+        # pickle) later by the feeder thread, where a failure is printed and the item is LOST -
+        # put() itself never raises for an unpicklable object
+        try:
+            data = pickle.dumps(obj)
+        except Exception:  # noqa: BLE001
+            self.sched.dropped = getattr(self.sched, "dropped", 0) + 1
+            return
         self.sched.op("put", self, data)
 
     def get(self):
